@@ -256,9 +256,13 @@ FloorSearch(e, lo, hi) ==                 \* lo <= floor(e) < hi
   IF hi - lo = 1 THEN lo
   ELSE LET mid == (lo + hi) \div 2 IN
        IF ZLe(ZMul(ZOf(mid), e.q), e.p) THEN FloorSearch(e, mid, hi) ELSE FloorSearch(e, lo, mid)
-QFloor(e) == FloorSearch(e, -1048576, 1048576)
+QFloor(e) == IF e.q = One /\ ZFits(e.p) THEN ZToInt(e.p) ELSE FloorSearch(e, -1048576, 1048576)
 \* the integers within one unit of e: <<lowest, highest>>
 AcceptInterval(e) == LET f == QFloor(e) IN IF QIsInt(e, f) THEN <<f - 1, f + 1>> ELSE <<f, f + 1>>
+\* iv = AcceptInterval(e), decided without searching for the floor (denominators are positive)
+IntervalIs(e, iv) ==
+  IF iv[2] - iv[1] = 2 THEN QIsInt(e, iv[1] + 1)
+  ELSE iv[2] - iv[1] = 1 /\ ZLt(ZMul(ZOf(iv[1]), e.q), e.p) /\ ZLt(e.p, ZMul(ZOf(iv[2]), e.q))
 
 \* ---- item variation store -----------------------------------------------------------------------
 \* ivs = [regions |-> sequence of regions, subs |-> sequence of [ri |-> region indices (0-based),
@@ -295,6 +299,9 @@ IvsDelta(ivs, entry, coords) ==
 \*  Dev_NegativeAdvance   an advance whose exact value is negative may be written as 0.
 \*  Dev_CffLsbUnvaried    a CFF2 font without an HVAR lsb map keeps its side bearings.
 \*  Dev_ClampToField      a metric outside the range of its field may be clamped to it.
+\*  Dev_BoxRounding       every side of a glyph's header box may be one unit off the box of the written
+\*                        outline (boxes of components rounded one by one).
+\*  Dev_HeadBoxOrigin     the head box is the union of the glyph boxes, with or without the origin.
 
 AllZero(coords) == \A k \in 1 .. Len(coords) : coords[k] = 0
 PeakAllZero(r) == \A k \in 1 .. Len(r) : r[k][2] = 0
@@ -379,6 +386,26 @@ GlyphVerdict(g, a, o) ==
              IN IF fromOut \/ fromExact \/ (~o.xminKnown /\ ~exactKnown) THEN {}
                 ELSE {<<"lsb-outline" \o wide, 0, o.lsb,
                         IF exactKnown THEN AcceptInterval(QSub(xm, pp1)) ELSE AcceptInterval(QSub(QOfInt(o.xmin), pp1))>>}
+      \* header box of the written glyph against the box of the written outline (the harness flattens
+      \* the output font: o.obox; <<>> = not derivable or nothing drawn).  Dev_BoxRounding: one unit
+      \* per side; a glyph without variation data of its own may keep the source header (a.hbox).
+      boxJudged == shapeOK /\ o.obox # <<>>
+      boxBad ==
+        IF ~boxJudged THEN {}
+        ELSE IF o.hbox = <<>> THEN {<<"bbox", 0, <<>>, o.obox>>}
+        ELSE IF a.kind = "simple" /\ Len(g.tuples) = 0 /\ o.hbox = a.hbox THEN {}
+        ELSE {<<"bbox", k, o.hbox[k], <<o.obox[k] - 1, o.obox[k] + 1>>>> :
+                 k \in {j \in 1 .. 4 : o.hbox[j] - o.obox[j] > 1 \/ o.obox[j] - o.hbox[j] > 1}}
+      \* the font promises lsb = xMin (head.flags bit 1, kept by this glyph in the source) and does not
+      \* move the side bearing point: the written side bearing is the written xMin
+      relJudged == ~still /\ rule = "outline" /\ a.lsbAt0 /\ a.kind \in {"simple", "composite"} /\ shapeOK
+                   /\ a.lsb = a.xmin /\ o.hbox # <<>> /\ QIsInt(pp1, 0)
+      relBad == IF ~relJudged \/ o.lsb = o.hbox[1] THEN {} ELSE {<<"lsb-xmin", 0, o.lsb, <<o.hbox[1]>>>>}
+      \* generated cases: the model's expectation (a.exp, computed by MC_Variation) is the acceptable
+      \* interval of every number as evaluated here from the written bytes
+      Val(j) == IF j <= 2 * n THEN (IF j % 2 = 1 THEN ev.x[(j - 1) \div 2] ELSE ev.y[(j - 1) \div 2])
+                ELSE IF j = 2 * n + 1 THEN adv ELSE ev.x[n]
+      transportOK == a.exp = <<>> \/ (Len(a.exp) = 2 * n + 2 /\ \A j \in 1 .. 2 * n + 2 : IntervalIs(Val(j), a.exp[j]))
       active == Cardinality({k \in 1 .. Len(g.tuples) : ~QIsZero(ev.scal[k])})
       \* points whose delta is inferred in some applicable tuple
       inferred == IF a.kind # "simple" THEN 0
@@ -387,12 +414,14 @@ GlyphVerdict(g, a, o) ==
       frac == IF still \/ ~Varied(a) THEN 0
               ELSE IF ~shapeOK THEN 0
               ELSE Cardinality({p \in (0 .. n - 1) \X {1, 2} : ~QIsInt(C(p[2], p[1]), o.pts[p[1] + 1][p[2]])})
-  IN [bad |-> shapeBad \cup pointBad \cup advBad \cup lsbBad,
+  IN [bad |-> shapeBad \cup pointBad \cup advBad \cup lsbBad \cup boxBad \cup relBad,
+      transportOK |-> transportOK,
       stat |-> [kind |-> a.kind, still |-> still, tuples |-> Len(g.tuples), active |-> active,
                 inferred |-> inferred, frac |-> frac, n |-> n,
                 hvar |-> IF ~a.hvar.present THEN "none" ELSE IF a.hvar.adv.present THEN "map" ELSE "direct",
                 lsbrule |-> rule, varied |-> Varied(a),
-                lsbJudged |-> (rule # "outline" \/ o.xminKnown \/ a.kind \in {"empty", "simple"})]]
+                lsbJudged |-> (rule # "outline" \/ o.xminKnown \/ a.kind \in {"empty", "simple"}),
+                boxJudged |-> boxJudged, relJudged |-> relJudged]]
 
 \* The acceptable interval of every output number, as a flat sequence: x0, y0, x1, y1, ..., advance,
 \* pp1.x.  Used to compare MC_Variation's expectation with the judge's evaluation of the font bytes.
@@ -404,13 +433,25 @@ GlyphExpect(g, a) ==
         ELSE IF j = 2 * n + 1 THEN AcceptInterval(ExactAdvance(a, n, ev))
         ELSE AcceptInterval(ev.x[n])]
 
-\* a: [tag, base, coords, ivs, outer, inner, lo, hi]   (lo .. hi = range of the field)
+\* a: [tag, present, base, coords, ivs, outer, inner, lo, hi]   (lo .. hi = range of the field;
+\* present = FALSE: the MVAR table has no record for the tag, the metric does not vary)
 MetricVerdict(a, value) ==
   LET x == QAdd(QOfInt(a.base), IvsDelta(a.ivs, [outer |-> a.outer, inner |-> a.inner], a.coords)) IN
-  IF AllZero(a.coords) THEN (IF value = a.base THEN {} ELSE {<<"default-metric", 0, value, <<a.base>>>>})
+  IF ~a.present THEN (IF value = a.base THEN {} ELSE {<<"metric-absent", 0, value, <<a.base>>>>})
+  ELSE IF AllZero(a.coords) THEN (IF value = a.base THEN {} ELSE {<<"default-metric", 0, value, <<a.base>>>>})
   ELSE IF Within1(value, x) THEN {}
   ELSE IF (QCmp(x, QOfInt(a.lo)) < 0 /\ value = a.lo) \/ (QCmp(x, QOfInt(a.hi)) > 0 /\ value = a.hi) THEN {}
   ELSE {<<"metric", 0, value, AcceptInterval(x)>>}
+
+\* ---- head.xMin .. yMax -------------------------------------------------------------------------------
+\* head: <<xMin, yMin, xMax, yMax>> of the written head table; ubox: union of the header boxes of the
+\* written glyphs that draw something (<<>>: none).  The head box is that union (OpenType: minimum /
+\* maximum across all glyph bounding boxes); Dev_HeadBoxOrigin: the origin may be taken into the union.
+HeadBoxBad(head, ubox) ==
+  IF head = <<>> \/ ubox = <<>> THEN {}
+  ELSE LET WithOrigin(k) == IF k <= 2 THEN (IF ubox[k] < 0 THEN ubox[k] ELSE 0) ELSE (IF ubox[k] > 0 THEN ubox[k] ELSE 0)
+           badk == {k \in 1 .. 4 : head[k] # ubox[k] /\ head[k] # WithOrigin(k)}
+       IN IF badk = {} THEN {} ELSE {<<"head-bbox", Min(badk), head, ubox>>}
 
 \* ---- what a static instance may contain ----------------------------------------------------------
 VariationTables == {"fvar", "gvar", "avar", "cvar", "HVAR", "VVAR", "MVAR"}
